@@ -70,9 +70,9 @@ pub fn run_clif(opc: u8) {
     let hkey: u32 = kani::any();
     let mut helpers: HashMap<u32, ebpf::Helper> = HashMap::new();
     if has_helper { helpers.insert(hkey, helper_fn); }
-    kani::cover!(true, "requires: precondition satisfiable");
+    // vacuity guard: the opcode-specific part of the precondition (wf_facts) is witnessed natively by
+    // `replay wf-witness` on every run, the environment part by the harness clif_env_precondition_satisfiable
     let r = CraneliftCompiler::new(helpers).compile_function(prog);
-    kani::cover!(true, "end of compilation reachable");
     let is_call = opc == OP_CALL;
     let clause: u8 = kani::any();
     if clause == 0 {
@@ -151,4 +151,16 @@ pub fn run_clif(opc: u8) {
             assert!(t.block_at_srcloc[0] != u32::MAX, "ensures: instruction 0 is emitted into a block");
         }
     }
+}
+
+/// vacuity guard for the environment assumptions of run_clif (they do not depend on the opcode)
+#[kani::proof]
+fn clif_env_precondition_satisfiable() {
+    let mem = SRegion { base: kani::any(), len: kani::any() };
+    let mbuff = SRegion { base: kani::any(), len: kani::any() };
+    let stack_base: u64 = kani::any();
+    kani::assume(mem.base.checked_add(mem.len).is_some() && mbuff.base.checked_add(mbuff.len).is_some() && stack_base.checked_add(512).is_some());
+    kani::assume((mem.len == 0) == (mem.base == 0) && (mbuff.len == 0 || mbuff.base != 0) && stack_base != 0);
+    kani::cover!(mem.len > 0 && mbuff.len > 0, "requires: environment with packet and metadata buffer");
+    kani::cover!(mem.len == 0 && mbuff.len == 0, "requires: environment without buffers");
 }
